@@ -133,6 +133,11 @@ impl<T: Flat + Walk, L: Flat + Length> Walk for FlatVec<T, L> {
         if self.len() > self.capacity() {
             out.push_str("!OVER");
         }
+        if std::mem::size_of::<T>() == 0 {
+            // zero-sized elements carry no content: only their number is rendered
+            out.push_str(&format!("*{}]", self.len()));
+            return;
+        }
         for (i, x) in self.as_slice().iter().enumerate() {
             if i > 0 {
                 out.push(' ');
